@@ -140,7 +140,7 @@ def gen_less_case(rng):
 
 
 def gen_cases(rng, tier):
-    n = 208 if tier == 'quick' else 4000
+    n = 208 if tier == 'quick' else 1500
     cases = []
     for i in range(n):
         cases.append(gen_case(rng, tier))
@@ -150,7 +150,7 @@ def gen_cases(rng, tier):
         cases.append(c)
     for _ in range(n // 16):
         cases.append(gen_case(rng, tier, dict(fault=True)))
-    for _ in range(24 if tier == 'quick' else 400):
+    for _ in range(24 if tier == 'quick' else 200):
         cases.append(gen_less_case(rng))
     return cases
 
